@@ -35,7 +35,7 @@ var c03IRKinds = []string{"Alloc", "BinOp", "BlankStore", "Call", "ChangeInterfa
 	"Recv", "Return", "RunDefers", "Select", "Send", "Slice", "SliceToArray", "SliceToArrayPointer", "Store", "TypeAssert", "TypeSwitch",
 	"UnOp", "Unreachable", "StringLookup"}
 
-var c03StdImports = []string{"errors", "fmt", "iter", "sync", "unsafe",
+var c03StdImports = []string{"errors", "fmt", "iter", "sync", "unsafe", "maps", "slices",
 	"bytes", "context", "encoding/binary", "encoding/hex", "encoding/json", "encoding/xml", "html/template", "io", "math", "net/url", "os", "os/signal",
 	"regexp", "sort", "strconv", "strings", "sync/atomic", "syscall", "text/template", "time", "unicode/utf8"}
 
